@@ -2,10 +2,13 @@
  * stores the longest prefix of src that fits, returns TRUE iff nothing was cut. */
 /*@unit
 name: safe_strncpy
+define: U_STRNCPY
 src: strings.c
 enforce: spiftool_safe_strncpy
 backend: sat
 loops: 1
+native: strhelp
+native_includes: strings.c
 */
 #include "vprelude.h"
 #include "strings.h"
@@ -22,9 +25,12 @@ __CPROVER_ensures(vg_exit != vg_j || (__CPROVER_return_value == TRUE) == (vg_n1 
 __CPROVER_ensures(__CPROVER_return_value == TRUE || __CPROVER_return_value == FALSE)
 ;
 
+long w_size; unsigned long w_n1;     /* witness scalars for the native replay (units/C13/native/strhelp.c) */
+
 void harness(void)
 {
     spif_charptr_t dest, src; spif_int32_t size;
+    w_size = size; w_n1 = vg_n1;
     spiftool_safe_strncpy(dest, src, size);
     VERIF_CANARY();
 }
